@@ -89,6 +89,30 @@ THEOREMS = {
     "C08_model_is_source_V2_step": "translation of the WHOLE _V2_step (both slices, design rows W[cline] * get(V2, other treatment), empty-slice branches, concatenations, prior phi2[m] * eta2, Q[dix] += phi2[m] * eta2, try/except, store, Mu[idx] += ...) = the model's sequence of V2 blocks, when V2 has n_drugdoses rows, W is n_clines x D, phi2 is n_drugdoses x D, eta2 has D entries",
     "C08_model_is_source_V1_step": "same for _V1_step (design rows W[cline])",
     "C08_model_is_source_V0_step": "translation of the WHOLE _V0_step (loop over range(n_drugdoses), dd1_idxs[m] / dd2_idxs[m], prior-only branch with phi0[m]*eta0, the two residual slices, concatenation, mean, variance, store, Mu[idx] += new - old with the concatenated - possibly repeating - index) = the model's sequence of V0 blocks, when V0 has n_drugdoses entries",
+    "C08_model_is_source_sample_mvn_from_precision": "translation of the WHOLE fast_mvn.sample_mvn_from_precision (default generator, the conditional expression np.linalg.cholesky(Q).T if not chol_factor else Q.T, the standard-normal draw of size Q.shape[0] as a draw node, the masked-array test, solve_triangular(Lt, z, lower=False), the mu_part / mu / neither cases) = Model/Mvn.v's mvn_general for EVERY argument combination, every function chol (np.linalg.cholesky; Err = it raised) and every lin_solve; equality of programs of draws with a result-or-exception value, up to the extensionality of continuations",
+    "C08_model_is_source_sample_mvn": "... as the Gibbs blocks call it, sample_mvn_from_precision(Q, mu_part=b): the exception chol raised, or ONE draw of len(Q) standard normals z and the value sample_mvn(L, z, b) = back_subst(L, z) + back_subst(L, fwd_subst(L, b)) of Model/Mvn.v for the factor L chol returned (the model C08_mvn_mean_cov is about)",
+    "C08_model_is_source_mvn_node": "the MVN draw node of the block links becomes the translated function: programs that are equal with abstract DMvn(Q, b) nodes stay equal when every such node is replaced by the translated sample_mvn_from_precision (its Cholesky call, its draw node, its solves; a raise = the answer VFail of the block's try/except) on the source side and by the model's mvn_prog on the model side",
+    "C08_model_is_source_mvn_law": "under np.linalg.cholesky's contract (lower-triangular factor of the size of Q, non-zero diagonal, L L^T = Q) the model's mvn_prog is one draw z of len(Q) standard normals returning x with Q m = b and L^T (x - m) = z, i.e. x ~ N(Q^-1 b, Q^-1)",
+    "C08_model_is_source_init": "translation of the WHOLE LegacySparseDrugComboImpl.__init__ on the whole object (every attribute it assigns): sizes / options / hyper-parameters recorded, empty observation lists and index dicts, V2, V1 zeros (n_drugdoses, D), W zeros (n_clines, D), V0, W0 zeros, phi2 / phi1 / phi0 = 100 in the shapes of V2 / V1 / V0, eta2 = eta1 = ones(D), eta0 = 1, tau = 100 ones(D), tau0 = 100, gam = ones(D), alpha = 0, prec = 100, Mu empty - for non-negative sizes, any previous content of the object, mult_gamma_proc = True",
+    "C08_model_is_source_init_negative": "a negative size makes the translated constructor raise (numpy's ValueError), no object is built",
+    "C08_model_is_source_init_shapes": "the state __init__ creates satisfies EVERY shape hypothesis the block links carry (W n_clines x D, W0 n_clines, V2 / V1 / phi2 / phi1 n_drugdoses x D, V0 / phi0 n_drugdoses, tau / eta2 / eta1 / gam D) and its cache is empty",
+    "C08_model_is_source_reset_model": "translation of the WHOLE reset_model: exactly W, W0, V2, V1, V0 (times 0.0: zeros of the same shape), alpha = 0, prec = 100, Mu = empty are reset; every other attribute is kept",
+    "C08_model_is_source_reset_shapes": "reset_model keeps every shape hypothesis and empties the cache",
+    "C08_model_is_source_blocks_keep_shapes": "every one of the 13 step functions keeps all shape hypotheses and the cache's length, for every well-shaped answer to its draws (a number for a scalar draw, an array of the argument's shape for a vectorised draw, `raised` or a vector with one entry per row of Q for the MVN draw)",
+    "C08_model_is_source_sweep_keeps_shapes": "a whole sweep started with well-shaped arrays and a cache no longer than the data (stale after _update) ends with well-shaped arrays and a cache of the data's length",
+    "C08_model_is_source_block": "all thirteen block links with their individual shape hypotheses replaced by the one predicate `shapes` (default options, D > 0)",
+    "C08_model_is_source_observable_ws": "programs equal on well-shaped answers issue the same draw arguments and end in the same state for every well-shaped answer stream",
+    "C08_model_is_source_reachable_ready": "every reachable state (after __init__, any number of _update calls, whole sweeps answered by well-shaped draws and reset_model calls, in any order) has well-shaped arrays, a cache no longer than the data, and data arrays of equal length",
+    "C08_model_is_source_sweep": "THE COMPOSITE: the object built by the translated __init__ (fake_intercept, mult_gamma_proc, local_shrinkage = True, D > 0), fed by any number of translated _update calls (all succeed), is in a reachable state for the data its store represents, and the translated mcmc_step - running the 13 translated block methods with the object's own option flags - equals the model's sweep mcmc_step on well-shaped answers; no shape hypothesis is left",
+    "C08_model_is_source_sweep_reachable": "... the same from EVERY reachable state (a second sweep, a sweep after more data, after reset_model)",
+    "C08_model_is_source_sweep_mvn": "... and with every MVN draw node of the sweep expanded into the translated sample_mvn_from_precision on the source side and the model's mvn_prog on the model side (for every chol that keeps the size of its argument)",
+    "C08_model_is_source_sdc_init": "translation of the WHOLE SparseDrugCombo.__init__: n_dims = n_embedding_dimensions, n_drugdoses = experiment_space.n_unique_treatments, n_clines = experiment_space.n_unique_samples and every option / hyper-parameter reach the parameter of the same name of the translated legacy constructor, run on a new instance; _rng, predict_interactions, interaction_log_transform stored",
+    "C08_model_is_source_get_model_state": "translation of the WHOLE SparseDrugCombo.get_model_state = the model's export of the wrapped object's state: W, W0, V2, V1, V0 under their own names, alpha, precision = prec (what C08_export is about)",
+    "C08_model_is_source_sdc_n_obs": "SparseDrugCombo.n_obs = the translated legacy n_obs = the number of observations of the data the store represents",
+    "C08_model_is_source_sdc_reset_model": "SparseDrugCombo.reset_model = the translated legacy reset_model on the wrapped object, nothing else",
+    "C08_model_is_source_sdc_set_rng": "set_rng stores the generator in _rng, the rng property reads it (the sampler never draws from it: known finding of C18)",
+    "C08_model_is_source_sdc_step": "SparseDrugCombo.step = exactly one mcmc_step of the wrapped object, the wrapper then holding the new state",
+    "C08_model_is_source_sdc_step_sweep": "... hence, read on the wrapped object's state, the model's sweep from every reachable state (well-shaped answers)",
 }
 ASSUMPTIONS = [
     "np.random.normal / np.random.gamma / Generator.normal sample the distributions their arguments name (the theorems are about the arguments)",
@@ -140,9 +164,35 @@ EXPLANATION = ("Model: Model/Gibbs.v (sampler as a program of draws), Model/Mvn.
                "numpy's IndexError / shape errors are not represented: the links carry shape facts of reachable states as hypotheses. "
                "Loops, branches, early returns, the order of reads / draws / stores and all arithmetic structure come from the "
                "translation. _update / encode_obs are linked on the object's observation store (C08_model_is_source_update: the index-dict "
-               "primitive above is an invariant _update maintains; defaultdict(list) = association list, a missing key reads []). Not linked: "
-               "reset_model, __init__, the non-default option branches (translated, not modelled), and a closed composite of the sweep (the block links carry "
-               "shape hypotheses that arbitrary-length drawn values do not preserve).")
+               "primitive above is an invariant _update maintains; defaultdict(list) = association list, a missing key reads []). "
+               "Second part (Generated/SrcMvn.v, Generated/SrcGibbsObj.v, Proofs/C08SourceObj.v): fast_mvn.sample_mvn_from_precision, "
+               "LegacySparseDrugComboImpl.__init__ / reset_model / n_obs on the WHOLE object (record pyimpl = every attribute the constructor "
+               "assigns; cfg_of / pi_obs / pi_st are the three parts the first part's methods see) and SparseDrugCombo.__init__ / "
+               "get_model_state / step / n_obs / reset_model / set_rng / rng are translated as well. C08_model_is_source_init_shapes + "
+               "_blocks_keep_shapes discharge the shape hypotheses, and C08_model_is_source_sweep is the closed composite: translated "
+               "__init__, any number of translated _update calls, translated mcmc_step over the translated block methods = the model's "
+               "sweep, stated with prog_eq_ws (continuations compared on WELL-SHAPED drawn values: a vectorised draw answers with an "
+               "array of its argument's shape, the MVN call with a vector of len(Q) or by raising - numpy's contract; an ill-shaped "
+               "answer would make numpy raise a broadcasting error, which the model does not represent); _sweep_reachable extends it to "
+               "every state reachable by _update / whole sweeps / reset_model, _sweep_mvn replaces every DMvn node by the translated "
+               "sample_mvn_from_precision. Hypotheses left: D > 0 (with D = 0 the code fails at gam[0]) and the default options. What the "
+               "second part TRUSTS besides the translator (new construct: conditional expressions `a if c else b`, an arm's raising "
+               "call bound inside the arm): for sample_mvn_from_precision - np.linalg.cholesky is a PARAMETER chol (any function "
+               "matrix -> matrix or LinAlgError; only C08_model_is_source_mvn_law assumes its contract L lower-triangular, L L^T = Q, and "
+               "_sweep_mvn that it keeps the size), np.linalg.solve a parameter too (reached only for masked arrays; a list of rows is "
+               "not a MaskedArray), np.random.default_rng() = a generator, rng.normal(size=n) = the draw node of n standard normals "
+               "(DNormalVec of n variances 1; WHICH generator answers is not represented), Q.shape[0] = number of rows, A.T of a "
+               "square matrix, solve_triangular(U, z, lower=False) = back substitution x_j = (z_j - sum_{k>j} U[j][k] x_k)/U[j][j], "
+               "cho_solve((U, False), b) = forward substitution with U.T then back substitution with U, vector +; for __init__ / "
+               "reset_model - the attribute table (which record component an attribute is), np.zeros(shape) / np.ones(n) (arrays of "
+               "zeros / ones of that shape; a negative dimension raises), np.ones_like, defaultdict(list) = empty association list, "
+               "scalar * array and array * scalar, the float literals 0.0 1.0 100.0, `super().__init__(**kwargs)` of a class without "
+               "base class sets no attribute; for the wrappers - a.copy() / a.astype(FloatingPointType) have a's value, "
+               "SparseDrugComboMCMCSample(...) builds the sample record from its keywords, LegacySparseDrugComboImpl(...) runs the "
+               "translated constructor on a new instance, a method call on self.wrapped_model runs the translated method and the "
+               "wrapper goes on holding the mutated object (aliasing is not modelled), experiment_space.n_unique_* are two integers. "
+               "Not linked: the non-default option branches (translated, not modelled), predict / predict_single_drug / bliss / ess_pars of "
+               "the legacy class (the exported sample's predict is C09's link), SparseDrugCombo._add_observations (C04's link).")
 
 STEP_NAMES = ["_reconstruct_Mu", "_alpha_step", "_W0_step", "_V0_step", "_W_step", "_V2_step", "_V1_step",
               "_prec_W0_step", "_prec_V0_step", "_prec_obs_step", "_prec_V2_step", "_prec_V1_step", "_prec_W_step"]
